@@ -76,6 +76,9 @@ func runC01(c *core.Ctx) {
 		if !c.Mine(idx) {
 			continue
 		}
+		if c.Enough() {
+			break
+		}
 		id := fmt.Sprintf("t%d", idx)
 		if !c.CaseQuiet(id) {
 			continue
